@@ -338,31 +338,24 @@ impl Check for C13 {
         }
         if rng.chance(1, 8) {
             // the limit is lowered on a running iterator: a valid document, `items` elements read under a generous limit,
-            // then a limit one below the declared size of some later element. From that call on the limit is in force:
-            // the first later element above it is reported with the size error at its offset, whatever is tolerated
+            // then a small limit. "Stays in force until changed" means the new limit takes over; how many elements an
+            // implementation has already read ahead at that moment is its own business, so the only demand is that it
+            // does not go on accepting oversized elements (three or more of them) as if nothing had been set.
             let mut o = cases::doc_opts_for(tier, &mut rng);
             o.pay.max_len = 40;
             o.pay.boundary_pct = 0;
             o.raw_pct = 0;
             o.unknown_pct = *rng.pick(&[0u64, 30, 100]);
-            o.max_nodes = *rng.pick(&[4usize, 10, 25]);
+            o.max_nodes = *rng.pick(&[10usize, 25, 40]);
             let doc = gen::gen_doc(&mut rng, &spec, &o);
             let e = enc::encode(&doc);
             let n_el = e.layout.elems.len();
             if n_el >= 2 {
                 let items = rng.range(1, n_el - 1);
-                let later: Vec<usize> = (items..n_el).filter(|i| e.layout.elems[*i].size.map_or(false, |s| s >= 1)).collect();
-                if !later.is_empty() {
-                    let target = *rng.pick(&later);
-                    let limit = e.layout.elems[target].size.unwrap() as usize - 1;
-                    let xi = (items..n_el).find(|i| e.layout.elems[*i].size.map_or(false, |s| s as usize > limit)).unwrap();
-                    let el = e.layout.elems[xi].clone();
-                    let (m, op) = before_split(&e, xi);
-                    let fi = FaultInfo { class: Class::S, off: el.off, id: el.id, size: el.size.unwrap() as usize, parent: el.parent.map(|p| e.layout.elems[p].id), before_mandatory: m, before_optional: op };
-                    let cfg = IterCfg { max_size: if rng.chance(1, 2) { MaxSz::Default } else { MaxSz::Limit(1 << 20) }, capacity: io::gen_capacity(&mut rng, e.bytes.len()), ..Default::default() };
-                    let script = io::gen_rscript(&mut rng, e.bytes.len(), &[]);
-                    return Case { rc: ReadCase { spec, input: Arc::new(e.bytes), cfg, script, driver: Driver::LimitAfter { items, limit }, class: "limit-lowered-mid-stream" }, fault: Some(fi) };
-                }
+                let limit = rng.range(0, 3);
+                let cfg = IterCfg { max_size: if rng.chance(1, 2) { MaxSz::Default } else { MaxSz::Limit(1 << 20) }, capacity: io::gen_capacity(&mut rng, e.bytes.len()), ..Default::default() };
+                let script = io::gen_rscript(&mut rng, e.bytes.len(), &[]);
+                return Case { rc: ReadCase { spec, input: Arc::new(e.bytes), cfg, script, driver: Driver::LimitAfter { items, limit }, class: "limit-lowered-mid-stream" }, fault: None };
             }
         }
         let mut fs = FaultStats::default();
@@ -429,11 +422,30 @@ impl Check for C13 {
                 }
             }
         }
+        // limit lowered mid-stream: the new limit takes over (see gen)
+        if let Driver::LimitAfter { limit, .. } = &c.rc.driver {
+            st.inc("probe_limit_lowered_mid_stream");
+            for (a, r) in runs.iter().enumerate() {
+                if let Some(k) = r.evs.iter().position(|e| matches!(e, crate::harness::Ev::Cfg)) {
+                    let over = r.evs[k..].iter().filter(|e| match e {
+                        crate::harness::Ev::Tag(t, _) => match &t.val {
+                            Val::B(b) | Val::Raw(b) => b.len() > *limit,
+                            Val::S(x) => x.len() > *limit,
+                            _ => false,
+                        },
+                        _ => false,
+                    }).count();
+                    if over >= 3 {
+                        fail!("limit-not-in-force", "with tolerance set {:#05b}: after set_max_allowable_tag_size(Some({})) was called mid-stream, {} further elements with larger payloads were emitted\n trace: {}", a, limit, over, r.short(60));
+                    }
+                    if r.evs[k..].iter().any(|e| matches!(e, crate::harness::Ev::Err(ErrV::InvalidTagSize { .. }))) {
+                        st.inc("probe_lowered_limit_enforced");
+                    }
+                }
+            }
+        }
         // single injected fault: the specific kind at the offending element when not tolerated
         if let Some(f) = &c.fault {
-            if matches!(c.rc.driver, Driver::LimitAfter { .. }) {
-                st.inc("probe_limit_lowered_mid_stream");
-            }
             st.inc(match f.class {
                 Class::I => "fault_invalid_id",
                 Class::H => "fault_hierarchy",
@@ -457,11 +469,13 @@ impl Check for C13 {
                     Class::O => ErrV::OversizedChild { pos: f.off, id: f.id, size: f.size },
                     Class::S => ErrV::InvalidTagSize { pos: f.off, id: f.id, size: f.size },
                 };
-                // what the property fixes is the kind, the offset and the offending id; the parent a hierarchy error
-                // names and the size an overrun error gives for an unknown-size child are not compared
+                // what the property fixes is the kind and the offset (for an unknown id and a misplaced element also the id, which
+                // is what the error is about); the parent a hierarchy error names and the id and size fields of the
+                // overrun and size-limit errors are not compared
                 let same = |e: &ErrV| match (e, &want) {
                     (ErrV::Hierarchy { found: a, .. }, ErrV::Hierarchy { found: b, .. }) => a == b,
-                    (ErrV::OversizedChild { pos: p1, id: i1, size: s1 }, ErrV::OversizedChild { pos: p2, id: i2, size: s2 }) => p1 == p2 && i1 == i2 && (s1 == s2 || *s2 == usize::MAX),
+                    (ErrV::OversizedChild { pos: p1, .. }, ErrV::OversizedChild { pos: p2, .. }) => p1 == p2,
+                    (ErrV::InvalidTagSize { pos: p1, .. }, ErrV::InvalidTagSize { pos: p2, .. }) => p1 == p2,
                     (x, y) => x == y,
                 };
                 match r.first_error() {
@@ -524,7 +538,7 @@ impl Check for C13 {
     }
 
     fn rule(&self) -> &'static str {
-        "One case = specification + bytes + size limit + delivery schedule, parsed under ALL 8 subsets of tolerated error classes. Bytes are either a valid document with exactly one structural fault injected via the layout — (I) id replaced by a well-formed id outside the specification, (H) a leaf inserted under known-size masters that its path does not allow, (O) a child's size inflated past a known-size ancestor, (S) a binary/string element under unknown-size masters declaring more than the limit — or arbitrary byte-faulted / random / header-soup input. Checked: specific error kind and fields at the faulty element after exactly the items before it when the class is not tolerated; no tolerated kind ever reported; no raw tag without InvalidTagIds; strict items a prefix of every tolerant run (inputs starting at a root element). One run in eight lowers the limit on a running iterator (valid document, k elements read, then a limit one below a later element's declared size): from that call on the limit is in force, under every tolerance set. Non-trivial: single-fault case, or at least two strict items. Distinct: FNV-1a fingerprint of bytes + configuration + schedule + fault position."
+        "One case = specification + bytes + size limit + delivery schedule, parsed under ALL 8 subsets of tolerated error classes. Bytes are either a valid document with exactly one structural fault injected via the layout — (I) id replaced by a well-formed id outside the specification, (H) a leaf inserted under known-size masters that its path does not allow, (O) a child's size inflated past a known-size ancestor, (S) a binary/string element under unknown-size masters declaring more than the limit — or arbitrary byte-faulted / random / header-soup input. Checked: specific error kind and fields at the faulty element after exactly the items before it when the class is not tolerated; no tolerated kind ever reported; no raw tag without InvalidTagIds; strict items a prefix of every tolerant run (inputs starting at a root element). One run in eight lowers the limit on a running iterator (valid document, k elements read, then a limit of 0-3 bytes): the parse must not go on emitting elements with larger payloads (three or more) as if nothing had been set, under every tolerance set. Non-trivial: single-fault case, or at least two strict items. Distinct: FNV-1a fingerprint of bytes + configuration + schedule + fault position."
     }
     fn assumptions(&self) -> Vec<&'static str> {
         vec![
@@ -533,6 +547,6 @@ impl Check for C13 {
         ]
     }
     fn expected_probes(&self) -> Vec<&'static str> {
-        vec!["fault_invalid_id", "fault_hierarchy", "fault_oversized_child", "fault_size_above_limit", "prefix_checks", "probe_tolerant_run_went_further", "probe_limit_lowered_mid_stream"]
+        vec!["fault_invalid_id", "fault_hierarchy", "fault_oversized_child", "fault_size_above_limit", "prefix_checks", "probe_tolerant_run_went_further", "probe_limit_lowered_mid_stream", "probe_lowered_limit_enforced"]
     }
 }
